@@ -100,6 +100,10 @@ def run(ctx):
     # ---- sendmail
     modes = ["ok", "fail", "badstderr", "ignore", "failignore"]
     sm_cases = [(md, c) for c in cases[:(40 if ctx.tier == "quick" else 400)] for md in modes]
+    # a program that does not read its standard input and exits 0: with a message larger than any pipe buffer the transport knows that the
+    # message was not handed over, and says so - in both implementations
+    bigmsg = b"Subject: big\r\n\r\n" + b"0123456789abcdef" * 65536
+    sm_cases += [("ignore", (b"a@x.org", [b"b@y.org"], bigmsg)), ("ignore", (None, [b"b@y.org", b"c@z.org"], bigmsg + b"tail"))]
     sm = run_impl(["transport.sendmail\t%s\t%s" % (md, args_of(*c)) for md, c in sm_cases])
     alines, aidx = [], []
     for k, ((md, c), r) in enumerate(zip(sm_cases, sm)):
@@ -121,6 +125,8 @@ def run(ctx):
                 obad.append((-1, "sendmail (%s): exit status 67 with a diagnostic reported as %s" % (which, res)))
             if md == "badstderr" and not res.startswith("err,response,"):
                 obad.append((-1, "sendmail (%s): non-UTF-8 diagnostics reported as %s" % (which, res)))
+            if md == "ignore" and len(msg) > 500000 and res == "ok":
+                obad.append((-1, "sendmail (%s): success reported although the program read nothing of a %d-octet message (the write cannot have completed)" % (which, len(msg))))
             if md == "failignore":
                 if res == "ok":
                     obad.append((-1, "sendmail (%s): a non-zero exit status was reported as success" % which))
@@ -169,6 +175,28 @@ def run(ctx):
         elif Rs[:4 + len(to)] != sync_Rs[:4 + len(to)]:        # EHLO, MAIL, every RCPT, DATA, the content (what follows is the transport being dropped)
             k = next((i for i, (a, b) in enumerate(zip(Rs, sync_Rs)) if a != b), min(len(Rs), len(sync_Rs)))
             obad.append((-1, "SMTP: the sync and the tokio client write different dialogues for the same envelope and message: unit %d is %r (sync) / %r (tokio)" % (k, (sync_Rs + [None])[k] and sync_Rs[k][:80], (Rs + [None])[k] and Rs[k][:80])))
+    # ---- the same for every set of extensions the server may offer: both clients refuse, or send, the same message in the same way
+    cap_cases = env_cases[-4:] + [(b"a@x.org", [b"b@y.org"], b"plain ascii\r\n")]
+    cscs = []
+    for caps in ([], [b"8BITMIME"], [b"SMTPUTF8"], [b"8BITMIME", b"SMTPUTF8"], [b"smtputf8"], [b"UTF8SMTP", b"BINARYMIME"]):
+        for fr, to, msg in cap_cases:
+            for fl in ("sync", "tokio"):
+                lines = [b"srv"] + caps
+                ehlo = b"".join(b"250" + (b" " if i == len(lines) - 1 else b"-") + l + b"\r\n" for i, l in enumerate(lines))
+                script = [step("none", b"220 hi\r\n"), step("line", ehlo)] + [step("line", b"250 ok\r\n")] * (1 + len(to)) + [step("line", b"354 go\r\n"), step("data", b"250 queued\r\n"), step("line", b"221 bye\r\n")]
+                op = {"op": "send", "to": [hx(t) for t in to], "msg": hx(msg)}
+                if fr is not None:
+                    op["from"] = hx(fr)
+                cscs.append({"id": 950000 + len(cscs), "flavor": fl, "timeout_ms": 3000, "server_cap_ms": 1500, "servers": [script], "caps": [c.decode() for c in caps],
+                             "ops": [{"op": "connect", "hello": hx(b"c18.test")}, op, {"op": "quit"}]})
+    cres = run_scenarios(cscs)
+    for k in range(0, len(cscs), 2):
+        ctx.count(2); ctx.cls("capability-sets")
+        (ra, rb) = cres[k], cres[k + 1]
+        Ra, Rb = [events_R(x["servers"][0]) if x.get("servers") else [] for x in (ra, rb)]
+        if Ra != Rb or ra.get("results") != rb.get("results"):
+            obad.append((-1, "SMTP: server offers %s: the sync client wrote %r and returned %s, the tokio client wrote %r and returned %s" % (
+                cscs[k]["caps"], [x[:40] for x in Ra[:6]], str(ra.get("results"))[:120], [x[:40] for x in Rb[:6]], str(rb.get("results"))[:120])))
     # ---- SMTP: sync and tokio clients agree with each other (and the model) on the fault table
     scs = []
     for nrcpt in (1, 2):
